@@ -16,3 +16,5 @@ def run(out, sc, tier, seed):
     run_progs(out, sc, "C16", {"gen": "hosts", "seed": seed, "maxtok": 2 if tier == "quick" else 3, "keep": 1.0 if tier == "quick" else 0.5,
                                "nv6": 300 if tier == "quick" else 20000}, "hosts", shard_size=2500)
     run_value_machine(out, sc, "C16", tier, fields=None)
+    from .common import run_witnesses
+    run_witnesses(out, sc, "C16")
